@@ -14,6 +14,24 @@ pub fn run_seed(base: u64, family: Family, idx: u64) -> u64 {
     splitmix64(&mut s)
 }
 
+/// The run with index `idx` of a family. Search families: one seed per index. Enumerating families
+/// (C07X): the index is decomposed into (base scenario, fault point); the fault point becomes the
+/// leading draws and everything else is drawn from the base scenario's seed.
+pub fn mode_of(base: u64, family: Family, idx: u64) -> (Mode, u64) {
+    match family {
+        Family::C07X => {
+            let per = crate::families::C07X_PER_BASE;
+            let seed = run_seed(base, family, idx / per);
+            let (cause, pos) = crate::families::c07x_point(idx % per);
+            (Mode::Prefix(vec![cause, pos], seed), seed)
+        }
+        _ => {
+            let seed = run_seed(base, family, idx);
+            (Mode::Search(seed), seed)
+        }
+    }
+}
+
 #[derive(Default, Debug, Clone)]
 pub struct Found {
     pub count: u64,
@@ -73,8 +91,8 @@ pub fn run_batch(
                     stop.store(true, Ordering::Relaxed);
                     break;
                 }
-                let seed = run_seed(base_seed, family, i);
-                let r = run_one(family, Mode::Search(seed));
+                let (mode, seed) = mode_of(base_seed, family, i);
+                let r = run_one(family, mode);
                 let vs = check_all(&r);
                 local.evaluations += 1;
                 local.signatures.insert(r.signature);
@@ -164,7 +182,7 @@ pub fn digests(family: Family, base_seed: u64, n: u64, threads: usize, reverse: 
                     break;
                 }
                 let i = if reverse { n - 1 - k } else { k };
-                let r = run_one(family, Mode::Search(run_seed(base_seed, family, i)));
+                let r = run_one(family, mode_of(base_seed, family, i).0);
                 let mut f = crate::rng::Fnv::default();
                 f.write_u64(r.digest);
                 f.write_u64(r.choices.len() as u64);
